@@ -25,6 +25,17 @@ CLAIMED["C31"] = ("rekey", "exploration",
    "Trusted: scheduler, instrumenter (validated by the repository's own tests on the instrumented copy), wire monitor (independent RFC implementation), synctest quiescence detection. Application layers are harness stubs.",
    "DESIGN.md section 4 H-rekey")
 
+CLAIMED["C25"] = ("wire", "exploration",
+   "deterministic simulation of a writer and a reader transport over a fragmenting link, with an independent RFC packet decoder on the wire as reference model",
+   "Two real packet transports (real ciphers, MACs, sequence counters, RFC 4253 7.2 key derivation) exchange generated payload sequences over a simulated link for every cipher x MAC pair the package implements, every KEX hash, both directions and start sequence numbers around 2^32; the reader must return exactly the written payloads in order with per-packet sequence numbers (incl. wrap), and an independent implementation of RFC 4253/4344/5647, OpenSSH EtM and chacha20-poly1305 decodes every packet on the wire with the same keys and checks length/padding/alignment/MAC under the sequence number it counts itself. Sampled configurations and payload sequences.",
+   "Key agreement is supplied by the harness (C29 decides it). Trusted: wiremon (written from the specifications, shares no code with ssh/cipher.go, ssh/mac.go, ssh/transport.go), scheduler, instrumenter.",
+   "DESIGN.md section 4 H-wire")
+CLAIMED["C26"] = ("wire", "fault_enumeration",
+   "fault injection on the simulated wire: complete enumeration of single-bit flips of a packet per cipher x MAC pair plus seeded multi-fault sequences (truncate, drop, duplicate, swap, insert, inflate length, random stream)",
+   "An on-path attacker rewrites the ciphertext produced by a real writer transport before a real reader transport sees it. Enumerated completely in both tiers: every single-bit flip of the first packet for each of the 51 cipher x MAC pairs. Sampled: 1-3 faults on streams of 1-5 packets for every pair and for the none cipher. For authenticated modes the reader may return only payloads written at that position and none from the first modified packet on, and must end in an error; an inflated length field with the link kept open must be rejected rather than waited for; no input may panic the reader.",
+   "Timing side channels (CBC camouflage) are out of scope; behaviour after the first error is not asserted. Key agreement supplied by the harness.",
+   "DESIGN.md section 4 H-wire")
+
 NA = {
  "C01": "pure function of (key, nonce, plaintext, ad): no schedule, clock, peer, stream fault or persisted state for a simulator to own; needs an independent AEAD and input generation (differential testing)",
  "C02": "pure predicate over byte strings; tampering here is input mutation, not an in-flight fault on a stateful stream",
@@ -66,7 +77,7 @@ NA = {
 }
 
 PLANNED = {
- "C25": "H-wire", "C26": "H-wire", "C29": "H-kex", "C30": "H-kex", 
+ "C29": "H-kex", "C30": "H-kex", 
  "C32": "H-sauth", "C33": "H-sauth", "C34": "H-cauth", "C35": "H-flow", "C36": "H-mux",
  "C43": "H-agent", "C47": "H-otr", "C50": "H-acme", "C51": "H-autocert",
 }
